@@ -618,6 +618,82 @@ Section PoolProofs.
     destruct (add c b (p_npwb p2) g) as [[[c' b'] n'] [e|]]; inversion H; subst; cbn; congruence.
   Qed.
 
+
+  (* step-level facts about the two environment fields *)
+  Lemma step_env : forall s o,
+      match o with
+      | OLedger l ids => p_ledger (s_pool (fst (step s o))) = l /\ s_committed (fst (step s o)) = s_committed s ++ ids
+      | _ => p_ledger (s_pool (fst (step s o))) = p_ledger (s_pool s) /\ s_committed (fst (step s o)) = s_committed s
+      end.
+  Proof.
+    intros s o. destruct o as [g | l ids | r committed]; cbn [TxPool.step].
+    - destruct (remember (s_pool s) g) as [p' code] eqn:E. cbn [fst s_pool s_committed].
+      split; [exact (remember_ledger _ _ _ _ E) | reflexivity].
+    - cbn. auto.
+    - destruct (match p_eval (s_pool s) with Some (c, _) => cround c <=? r | None => true end) eqn:Ego;
+        cbn [fst]; [| auto].
+      unfold TxPool.on_new_block. rewrite Ego. unfold sys_after_recompute.
+      destruct (p_eval (recompute _ committed)); cbn [s_pool s_committed];
+        rewrite recompute_ledger; cbn [set_ftm p_ledger]; auto.
+  Qed.
+
+  Theorem no_committed_at : forall s c b id,
+      Inv s -> led_ok s ->
+      p_eval (s_pool s) = Some (c, b) -> s_base s = p_ledger (s_pool s) ->
+      In id (flat (p_pending (s_pool s))) -> ~ In id (s_committed s).
+  Proof.
+    intros s c b id HI Hled Hev Hsync Hin Hcom.
+    destruct (inv_replay _ HI _ _ Hev) as [c0 [br [nr [Hs [Hr _]]]]].
+    destruct (replay_seen _ _ _ _ _ _ _ Hr) as [_ [Hun _]].
+    specialize (Hun _ Hin). rewrite Hsync in Hs. rewrite (Hled _ _ Hs Hcom) in Hun. discriminate.
+  Qed.
+
+  Theorem admit_at : forall s g p',
+      Inv s -> remember (s_pool s) g = (p', None) ->
+      p_pending p' = p_pending (s_pool s) ++ [g] /\
+      exists c0 c c', start (s_base s) = SOk c0 /\
+                      capply_all c0 (p_pending (s_pool s)) = Some c /\ capply c g = Some c' /\
+                      exists b', p_eval p' = Some (c', b').
+  Proof.
+    intros s g p' HI Hrem.
+    unfold TxPool.remember in Hrem.
+    destruct (check_size tstpf maxsize (s_pool s) g) as [p1 ok] eqn:Ecs.
+    assert (Hcs : p_pending p1 = p_pending (s_pool s) /\ p_eval p1 = p_eval (s_pool s)).
+    { unfold TxPool.check_size in Ecs.
+      destruct (maxsize <? _); [destruct (is_sp_single g); [destruct (p_over (s_pool s))|]|];
+        inversion Ecs; subst; cbn; auto. }
+    destruct Hcs as [Hp1 He1].
+    destruct ok; cbn [negb] in Hrem; [| discriminate].
+    destruct (p_eval p1) as [[c b]|] eqn:Eev; [| discriminate].
+    destruct (check_fee tstpf tspsnd tfee tenc expf p1 g) as [p2 fok] eqn:Ecf.
+    assert (Hcf : p_pending p2 = p_pending p1).
+    { unfold TxPool.check_fee in Ecf. destruct (fee_exempt tstpf tspsnd tfee g); inversion Ecf; subst; cbn; auto. }
+    destruct fok; cbn [negb] in Hrem; [| discriminate].
+    destruct (add c b (p_npwb p2) g) as [[[c' b'] n'] [e|]] eqn:Eadd; [discriminate|].
+    inversion Hrem; subst; clear Hrem. cbn [p_pending set_eval p_eval].
+    rewrite Hcf, Hp1. split; [reflexivity|].
+    assert (Hevp : p_eval (s_pool s) = Some (c, b)) by congruence.
+    destruct (inv_replay _ HI _ _ Hevp) as [c0 [br [nr [Hs [Hr _]]]]].
+    exists c0, c, c'. repeat split; auto.
+    - eapply replay_capply; eauto.
+    - eapply add_ok_capply; eauto.
+    - eauto.
+  Qed.
+
+  Theorem size_at : forall s, Inv s ->
+      txcount (p_pending (s_pool s)) <= maxsize + spcount (p_pending (s_pool s)) /\
+      txcount (p_pending (s_pool s)) <= N.max (s_basecount s) maxsize + b2n (p_over (s_pool s)).
+  Proof.
+    intros s [_ _ _ Hn He]. split; [| exact He]. rewrite count_split. lia.
+  Qed.
+
+  Theorem applies_at : forall s c b, Inv s -> p_eval (s_pool s) = Some (c, b) ->
+      exists c0, start (s_base s) = SOk c0 /\ capply_all c0 (p_pending (s_pool s)) = Some c.
+  Proof.
+    intros s c b HI H. destruct (inv_replay _ HI _ _ H) as [c0 [br [nr [Hs [Hr _]]]]].
+    exists c0. split; [assumption | eapply replay_capply; eauto].
+  Qed.
+
   Lemma run_led_ok : forall ops s, led_ok s -> env_ok (s_committed s) ops -> led_ok (run s ops).
   Proof.
     induction ops as [|o ops IH]; intros s Hl He; [exact Hl|].
